@@ -188,7 +188,8 @@ theorem rejected_iff (svd : Mat3 α → Mat3 α × Vec3 α × Mat3 α) (eps : α
   · rw [if_neg h]
     constructor
     · intro hh
-      cases hs : svd (covariance P Q) with | mk V r => cases r with | mk s Wt => rw [hs] at hh; simp at hh
+      simp only at hh
+      cases hh
     · intro hh; exact absurd hh h
 
 theorem rejected_iff_quaternion (eig : Mat4 α → List (α × Vec4 α)) (eps : α) (P Q : List (Vec3 α))
@@ -288,7 +289,7 @@ example : kabsch exSvd Gen.kabsch_eps exP exQ = .ok Mat3.one := by
   refine ⟨?_, ?_⟩
   · rw [guards_ok_iff]
     refine ⟨rfl, by decide, ?_, ?_⟩ <;>
-      simp [uncentred, Model.mean, Model.vsum, exP, exQ, Vec3.add, Vec3.zero, absv, Gen.kabsch_eps]
+      (simp [uncentred, Model.mean, Model.vsum, exP, exQ, Vec3.add, Vec3.zero, absv, Gen.kabsch_eps]; norm_num)
   · simp [kabschCore, exSvd, Mat3.mul, Mat3.T, Mat3.one, Mat3.diag, Mat3.det]
 
 end Props.C06
